@@ -14,6 +14,7 @@ pub fn run(entry: &str, v: &Value) -> Option<Result<String, String>> {
         "async_client_small_frames_abandoned" => rt2(async_client_small_frames_abandoned()),
         "svs_cancel_during_next" => svs_cancel_during_next(),
         "svs_producer_panic" => svs_producer_panic(),
+        "svs_early_stop_releases" => svs_early_stop_releases(),
         "fleet_wide_broadcast" => fleet_wide_broadcast(v),
         "fleet_health_probe_malformed" => fleet_health_probe_malformed(),
         "ws_default_limits" => rt2(ws_default_limits()),
@@ -1556,4 +1557,80 @@ fn client_survives_cancel_and_idle() -> Result<String, String> {
         }
     }
     Ok(format!("{ws_cases} WebSocket handle counts and 4 blocking calls around a write timeout held"))
+}
+
+// ---------------------------------------------------------------------------------------------
+// C09: a consumer that stops early releases the stream (the pullers send a cancel): pulling it
+// afterwards is an error. Blocking (pull_consume over Client) and async (pull_consume_async over
+// AsyncClient); the cancel is a notification, so the check polls up to 10 s for the release.
+fn svs_early_stop_releases() -> Result<String, String> {
+    use repe::value_stream::{Compression, RouterValueStreamExt, StreamOpts, ROUTE_NEXT};
+    use std::io::Read as _;
+    #[derive(serde::Serialize)]
+    struct NextRequest {
+        stream_id: u64,
+    }
+    let samples: Vec<f64> = (0..32 * 1024).map(|i| i as f64 * 0.25).collect();
+    let served = samples.clone();
+    let router = repe::Router::new().with_typed_value_stream(
+        move |resource: &str| (resource == "samples").then(|| served.clone()),
+        StreamOpts { chunk_bytes: 512, compression: Compression::None, zstd_level: 3, session_depth: 1 },
+    );
+    let server = repe::Server::new(router);
+    let listener = server.listen("127.0.0.1:0").map_err(|e| e.to_string())?;
+    let addr = listener.local_addr().unwrap();
+    std::thread::spawn(move || {
+        let _ = server.serve(listener);
+    });
+    let expected = beve::to_vec_typed_slice(&samples);
+    let client = repe::Client::connect(addr).map_err(|e| e.to_string())?;
+    // which stream ids are still pullable? (ids are handed out from 1)
+    let live = |upto: u64| -> Vec<(u64, usize)> {
+        (1..=upto)
+            .filter_map(|id| {
+                let body = beve::to_vec(&NextRequest { stream_id: id }).unwrap();
+                client.call_with_formats(ROUTE_NEXT, repe::QueryFormat::JsonPointer as u16, Some(&body), repe::BodyFormat::Beve as u16).ok().map(|m| (id, m.body.len()))
+            })
+            .collect()
+    };
+    let wait_released = |who: &str, upto: u64| -> Result<(), String> {
+        let t0 = std::time::Instant::now();
+        loop {
+            let l = live(upto);
+            if l.is_empty() {
+                return Ok(());
+            }
+            if t0.elapsed() > Duration::from_secs(10) {
+                return Err(format!("{who}: the consumer stopped after 16 bytes, yet 10 s later a raw next still returns chunks for stream(s) {l:?}; an early stop must release the stream"));
+            }
+            std::thread::sleep(Duration::from_millis(50));
+        }
+    };
+    // (a) blocking
+    let head = repe::pull_consume(&client, "samples", |reader| {
+        let mut head = [0u8; 16];
+        reader.read_exact(&mut head)?;
+        Ok(head.to_vec())
+    })
+    .map_err(|e| format!("blocking early-stopped pull failed: {e}"))?;
+    if head != expected[..16] {
+        return Err("blocking early-stopped pull delivered the wrong first 16 bytes".into());
+    }
+    wait_released("pull_consume (blocking client)", 2)?;
+    // (b) async
+    let rt = tokio::runtime::Builder::new_multi_thread().worker_threads(2).enable_all().build().unwrap();
+    let aclient = rt.block_on(repe::AsyncClient::connect(addr)).map_err(|e| e.to_string())?;
+    let head = rt
+        .block_on(repe::value_stream::pull_consume_async(&aclient, "samples", |mut reader: Box<dyn std::io::Read>| {
+            let mut head = [0u8; 16];
+            reader.read_exact(&mut head)?;
+            Ok(head.to_vec())
+        }))
+        .map_err(|e| format!("async early-stopped pull failed: {e}"))?;
+    if head != expected[..16] {
+        return Err("async early-stopped pull delivered the wrong first 16 bytes".into());
+    }
+    wait_released("pull_consume_async (async client)", 4)?;
+    rt.shutdown_background();
+    Ok("early-stopped blocking and async pulls released their streams".into())
 }
